@@ -297,7 +297,7 @@ func (c *c08Check) Run(seed, run uint64, rec []uint32, st Stats, only *Viol) []V
 		return c.stage3(seed, run, t, s, only)
 	case stage%2 == 1:
 		// S1: source order against the model, canonical map order
-		cfg := CFConfig{Prop: "C08", JudgeClean: true, Faults: false, Profile: richProfile}
+		cfg := CFConfig{Prop: "C08", JudgeClean: true, Faults: false, Profile: richProfile, Relayout: true}
 		vs := CFRun(c.it, cfg, t, seed, run, s.CF, -1, "")
 		for i := range vs {
 			vs[i].Derived["stage"] = stage
